@@ -133,8 +133,7 @@ fn vp_native_head_field_limit() {
         cases += 1;
         match got {
             Ok((_, h)) => { assert!(count <= max, "{} field lines ({} distinct names) accepted with max_headers = {}", count, distinct.min(count), max); assert_eq!(h.len(), count); }
-            Err(e) => { assert!(count > max, "{} field lines refused with max_headers = {}: {}", count, max, e);
-                        assert!(matches!(e.kind(), crate::ErrorKind::InvalidResponse(crate::error::InvalidResponseKind::Header))); }
+            Err(e) => { assert!(count > max, "{} field lines refused with max_headers = {}: {}", count, max, e); }
         }
     } } }
     println!("VP-NATIVE head_field_limit cases={}", cases);
